@@ -371,6 +371,19 @@ def r_path(A, ctx, scope, rule="R-PATH"):
         for nd in cfg.stmts():
             if nd.kind != "for" and any(x is call for x in ast.walk(nd.ast)):
                 cnode = nd.id
+        # (0) every grid point is solved: no path through an iteration bypasses solve()
+        n += 1
+        skips = [x for x in ast.walk(lp) if isinstance(x, ast.Continue)]
+        bypass = []
+        for sk in skips:
+            sid = cfg.node_of(sk)
+            if sid is not None and cnode is not None and not cfg.dominated_by(sid, cnode):
+                bypass.append(sk)
+        ctx.ob(rule, f"{f.fq}::every-alpha-solved", not bypass,
+               what="an iteration of the path loop can `continue` before solve(): that grid point keeps "
+                    "its initial (zero) column - intercept and unpenalised coefficients included - "
+                    "instead of the solution for its alpha",
+               loc=loc(f, bypass[0]) if bypass else None)
         # (1) alpha set before solve
         n += 1
         ok = False
